@@ -744,11 +744,15 @@ def run(ctx):
     diffs = []
     diffs += objects_checks(ctx, data, drv)
     diffs += [("settings",) + d for d in settings_checks(ctx, data, drv, nexsettings)]
+    import c20_cwd
+    diffs += c20_cwd.run(ctx, data, drv, vf.REPO, hx, canon_model_dump, aset.CFGS)
     diffs += [("effects",) + d for d in effects_checks(ctx, data, drv, nexsettings)]
     documented_fields_check(ctx, data, nexsettings)
     mods = sc.load_modules()
     tdata = st.extract(vf.REPO)
     switch_setter_checks(ctx, mods, tdata, None)
+    import c20_cbfail
+    c20_cbfail.run(ctx, mods)
     diffs += [("legacy",) + d[:3] for d in legacy_checks(ctx, drv)]
     import api_boundary
     diffs += api_boundary.run(ctx, drv, mods, ctx.driver("C18"), st.driver_lines(tdata))
